@@ -13,7 +13,6 @@ import (
 	"os"
 	"strings"
 	"sync"
-	"time"
 
 	"github.com/q191201771/lal/pkg/base"
 	"github.com/q191201771/lal/pkg/hls"
@@ -200,7 +199,7 @@ func New(c Conf) *W {
 
 // SyncQueues makes every subscriber write synchronous (queue size 0). Process-wide.
 func SyncQueues() {
-	hls.VerifTickerPeriod = 1000000 * time.Hour
+	hls.VerifNoSweep = true
 	rtmp.VerifSetWChanSize(0)
 	httpflv.SubSessionWriteChanSize = 0
 	httpts.SubSessionWriteChanSize = 0
